@@ -211,6 +211,15 @@ func (m *BlockManager) processRequest(ctx context.Context, request *downloadRequ
 	for {
 		select {
 		case <-time.After(m.blockRequestDelay): // most blocks finish within 5 seconds
+			m.currentLock.Lock()
+			isComplete := m.currentIsComplete
+			m.currentLock.Unlock()
+			if isComplete {
+				// A download just completed. Don't request the block again when this case is
+				// selected before the complete case below.
+				continue
+			}
+
 			downloaders := m.Downloaders(request.hash)
 			logger.VerboseWithFields(ctx, []logger.Field{
 				logger.Stringers("active_downloads", downloaders),
@@ -388,12 +397,15 @@ func (c *downloadFinisher) onDownloaderCompleted(ctx context.Context, err error)
 		logger.Stringer("block_hash", hash), logger.Int("block_height", c.downloader.Height()))
 	logger.Verbose(ctx, "Finishing downloader : %s", err)
 
-	c.manager.removeDownloader(ctx, c.downloader)
-
 	if err == nil {
+		// Mark the block complete before removing the downloader so the block is never seen as
+		// incomplete with no active downloads, which would cause it to be requested again.
 		c.manager.markBlockRequestComplete(ctx, hash)
+		c.manager.removeDownloader(ctx, c.downloader)
 		return
 	}
+
+	c.manager.removeDownloader(ctx, c.downloader)
 
 	if errors.Cause(err) == threads.Interrupted {
 		logger.Verbose(ctx, "Block download interrupted")
